@@ -16,6 +16,13 @@ import ModVerif.Proofs.GoRtLemmasStr
 namespace ModVerif.GoRtZip
 open ModVerif ModVerif.GoRt
 
+/-- decidable equality on results, so that the non-vacuity examples of the tie theorems close by kernel `decide` -/
+instance exceptDecEq {ε α : Type} [DecidableEq ε] [DecidableEq α] : DecidableEq (Except ε α)
+  | .ok a, .ok b => if h : a = b then isTrue (by rw [h]) else isFalse (fun e => h (Except.ok.inj e))
+  | .error a, .error b => if h : a = b then isTrue (by rw [h]) else isFalse (fun e => h (Except.error.inj e))
+  | .ok _, .error _ => isFalse (fun e => by cases e)
+  | .error _, .ok _ => isFalse (fun e => by cases e)
+
 /-! ### strings.Index as an option -/
 
 /-- offset of the first occurrence of `pat` -/
@@ -108,7 +115,7 @@ section maps
 variable {κ ν β : Type} [DecidableEq κ]
 
 /-- looking a key up commutes with a re-packing `f` of the entries that keeps the key (`key (f p) = p.1`) -/
-theorem find?_map_key (f : κ × ν → β) (key : β → κ) (hk : ∀ p, key (f p) = p.1) (k : κ) :
+theorem find?_map_key [BEq κ] [LawfulBEq κ] (f : κ × ν → β) (key : β → κ) (hk : ∀ p, key (f p) = p.1) (k : κ) :
     ∀ m : List (κ × ν), (m.map f).find? (fun e => key e == k) = (m.find? (fun p => decide (p.1 = k))).map f
   | [] => rfl
   | p :: m => by
